@@ -1,2 +1,428 @@
-(* C09 Proofs (under construction) *)
-Require Import Verif.Model.C09_Types Verif.Model.C09.
+(* C09: the implementation model (State + frame stack + bit masks) refines the reference semantics.
+   Everything is proved about the open-recursive step functions; the fuelled functions follow by induction. *)
+From Coq Require Import List String ZArith NArith Bool Lia.
+Import ListNotations.
+Require Import Verif.Model.C09_Types Verif.Model.C09 Verif.Proofs.C09_Frames.
+Open Scope string_scope.
+Open Scope list_scope.
+
+(* ---------------------------------------------------------------- premises, unfolded *)
+Lemma ops_eqb_eq a b : ops_eqb a b = true -> a = b.
+Proof.
+  unfold ops_eqb. revert b. induction a as [|x a IH]; intros [|y b] H; try discriminate; [reflexivity|].
+  destruct x, y; try discriminate; f_equal; apply IH; exact H.
+Qed.
+
+Lemma cfg_ok_inv cfg : cfg_ok cfg = true ->
+  cfg_or_pre cfg = [OpPush] /\ cfg_or_ok cfg = [OpMerge] /\ cfg_or_fail cfg = [OpPop] /\
+  cfg_not_pre cfg = [OpPush] /\ cfg_not_post cfg = [OpPop] /\ cfg_merge_propagates cfg = true.
+Proof.
+  unfold cfg_ok. intro H. repeat (apply andb_true_iff in H as [H ?]).
+  repeat split; try (apply ops_eqb_eq; assumption); assumption.
+Qed.
+
+Lemma wf_or mapping ps : wf_pat_b mapping (POr ps) = true -> Forall (fun q => wf_pat_b mapping q = true) ps.
+Proof.
+  simpl. induction ps as [|q ps IH]; intro H; constructor.
+  - apply andb_true_iff in H as [H _]. exact H.
+  - apply IH. apply andb_true_iff in H as [_ H]. exact H.
+Qed.
+Lemma wf_node mapping ty fs :
+  wf_pat_b mapping (PNode ty fs) = true -> Forall (fun nf => wf_pat_b mapping (snd nf) = true) fs.
+Proof.
+  simpl. induction fs as [|[n q] fs IH]; intro H; constructor.
+  - apply andb_true_iff in H as [H _]. exact H.
+  - apply IH. apply andb_true_iff in H as [_ H]. exact H.
+Qed.
+
+Lemma wf_ta_pre mapping k arg q :
+  wf_pat_b mapping arg = true -> ta_pre k arg = Some q -> wf_pat_b mapping q = true.
+Proof.
+  unfold ta_pre. intros Hw H.
+  destruct (String.eqb k "Symbol"); [inversion H; reflexivity|].
+  destruct (String.eqb k "Builtin"); [inversion H; subst; simpl; rewrite Hw; reflexivity|].
+  destruct (String.eqb k "Object"); [inversion H; subst; simpl; rewrite Hw; reflexivity|].
+  destruct (String.eqb k "IntegerLiteral"); [inversion H; reflexivity|discriminate].
+Qed.
+
+Section Sim.
+Variable cfg : matcher_cfg.
+Variable orc : oracle.
+Variable mapping : list string.
+Variable arec : val -> val -> ares.
+Hypothesis Hcfg : cfg_ok cfg = true.
+Hypothesis Hlen : List.length mapping <= 64.
+
+Let Hpre := proj1 (cfg_ok_inv cfg Hcfg).
+Let Hok := proj1 (proj2 (cfg_ok_inv cfg Hcfg)).
+Let Hfail := proj1 (proj2 (proj2 (cfg_ok_inv cfg Hcfg))).
+Let Hnpre := proj1 (proj2 (proj2 (proj2 (cfg_ok_inv cfg Hcfg)))).
+Let Hnpost := proj1 (proj2 (proj2 (proj2 (proj2 (cfg_ok_inv cfg Hcfg))))).
+Let Hprop := proj2 (proj2 (proj2 (proj2 (proj2 (cfg_ok_inv cfg Hcfg))))).
+
+(* what one implementation step must satisfy relative to the reference step: the frames below the top
+   one are untouched, the top frame still describes the bindings made since it was pushed, and the
+   outcome is the reference outcome; on success value and State coincide *)
+Definition post (B : state) (rest : list N) (ri : res mstate) (rs : res state) : Prop :=
+  match ri with
+  | RFuel | RPanic => True
+  | RDone ok v (S', stk) =>
+      exists f', stk = f' :: rest /\ frame_inv mapping B S' f' /\
+        exists vs Ss, rs = RDone ok vs Ss /\ (ok = true -> vs = v /\ Ss = S')
+  end.
+
+Definition sim (ri : recfn) (rs : srecfn) : Prop :=
+  forall p r S f rest B, wf_pat_b mapping p = true -> frame_inv mapping B S f ->
+    post B rest (ri p r (S, f :: rest)) (rs p r S).
+
+Lemma post_done B rest ok v S f vs Ss :
+  frame_inv mapping B S f -> (ok = true -> vs = v /\ Ss = S) ->
+  post B rest (RDone ok v (S, f :: rest)) (RDone ok vs Ss).
+Proof. intros H1 H2. simpl. exists f. split; [reflexivity|]. split; [exact H1|]. exists vs, Ss. auto. Qed.
+
+Lemma post_same B rest ok v S f : frame_inv mapping B S f -> post B rest (RDone ok v (S, f :: rest)) (RDone ok v S).
+Proof. intro H. apply post_done; auto. Qed.
+
+(* ---- frame operations under cfg_ok *)
+Lemma run_push S stk : run_ops cfg mapping [OpPush] (S, stk) = Some (S, 0%N :: stk).
+Proof. reflexivity. Qed.
+Lemma run_pop S f stk : run_ops cfg mapping [OpPop] (S, f :: stk) = Some (pop_state mapping f S, stk).
+Proof. reflexivity. Qed.
+Lemma run_merge S f1 f stk : run_ops cfg mapping [OpMerge] (S, f1 :: f :: stk) = Some (S, N.lor f f1 :: stk).
+Proof. simpl. unfold run_op. simpl. rewrite Hprop. reflexivity. Qed.
+
+Variable ri : recfn.
+Variable rs : srecfn.
+Hypothesis Hsim : sim ri rs.
+
+(* ---- Or *)
+Lemma sim_or ps : Forall (fun q => wf_pat_b mapping q = true) ps ->
+  forall r S f rest B, frame_inv mapping B S f ->
+    post B rest (or_loop cfg mapping ri ps r (S, f :: rest)) (s_or rs ps r S).
+Proof.
+  induction ps as [|p ps IH]; intros Hwf r S f rest B Hinv.
+  - simpl or_loop. simpl s_or. apply post_same. exact Hinv.
+  - inversion Hwf as [|? ? Hp Hps]; subst. simpl or_loop. rewrite Hpre, run_push.
+    pose proof (Hsim p r S 0%N (f :: rest) S Hp (frame_inv_push mapping S (frame_inv_nodup mapping B S f Hinv))) as H.
+    simpl s_or. destruct (ri p r (S, 0%N :: f :: rest)) as [| |ok v [S1 stk1]]; simpl; auto.
+    simpl in H. destruct H as [f1 [-> [Hinv1 [vs [Ss [Hrs Heq]]]]]]. rewrite Hrs.
+    destruct ok.
+    + rewrite Hok, run_merge. destruct (Heq eq_refl) as [-> ->].
+      apply post_same. eapply frame_inv_merge; eassumption.
+    + rewrite Hfail, run_pop. rewrite (frame_inv_pop mapping S S1 f1 Hinv1). apply IH; assumption.
+Qed.
+
+(* ---- struct node fields *)
+Lemma sim_fields fs : Forall (fun nf => wf_pat_b mapping (snd nf) = true) fs ->
+  forall fsb b S f rest B, frame_inv mapping B S f ->
+    post B rest (fields_loop ri fs fsb b (S, f :: rest)) (s_fields rs fs fsb b S).
+Proof.
+  induction fs as [|[n pf] fs IH]; intros Hwf fsb b S f rest B Hinv.
+  - simpl. apply post_same. exact Hinv.
+  - inversion Hwf as [|? ? Hp Hps]; subst. simpl in Hp. simpl fields_loop. simpl s_fields.
+    destruct (assoc n fsb) as [bf|]; [|exact I].
+    assert (Hgen : post B rest
+      match ri pf bf (S, f :: rest) with
+      | RDone true _ m1 => fields_loop ri fs fsb b m1
+      | RDone false _ m1 => RDone false VNil m1
+      | e => e end
+      match rs pf bf S with
+      | RDone true _ s1 => s_fields rs fs fsb b s1
+      | RDone false _ _ => RDone false VNil S
+      | e => e end).
+    { pose proof (Hsim pf bf S f rest B Hp Hinv) as H.
+      destruct (ri pf bf (S, f :: rest)) as [| |ok v [S1 stk1]]; simpl; auto.
+      simpl in H. destruct H as [f1 [-> [Hinv1 [vs [Ss [Hrs Heq]]]]]]. rewrite Hrs. destruct ok.
+      - destruct (Heq eq_refl) as [_ ->]. apply IH; assumption.
+      - apply post_done; [exact Hinv1|discriminate]. }
+    destruct pf; try exact Hgen.
+    destruct (is_vnil bf); [apply post_same|apply post_same]; exact Hinv.
+Qed.
+
+(* ---- one step *)
+Lemma wf_binding name idx sub :
+  wf_pat_b mapping (PBinding name idx sub) = true ->
+  nth_error mapping idx = Some name /\ idx < 64 /\ wf_pat_b mapping sub = true.
+Proof.
+  simpl. intro H. apply andb_true_iff in H as [H1 H2].
+  destruct (nth_error mapping idx) as [n|] eqn:E; [|discriminate].
+  apply String.eqb_eq in H1. subst n. split; [reflexivity|]. split; [|exact H2].
+  assert (idx < List.length mapping) by (apply nth_error_Some; rewrite E; discriminate). lia.
+Qed.
+
+Lemma sim_store name idx sub r S f rest B :
+  nth_error mapping idx = Some name -> idx < 64 -> wf_pat_b mapping sub = true ->
+  frame_inv mapping B S f -> lookup name S = None ->
+  post B rest
+    match ri sub r (S, f :: rest) with
+    | RDone true v m1 => match do_set name idx v m1 with Some m2 => RDone true v m2 | None => RPanic end
+    | e => e end
+    match rs sub r S with
+    | RDone true v s1 => RDone true v (set_st name v s1)
+    | RDone false _ _ => RDone false VNil S
+    | e => e end.
+Proof.
+  intros Hidx H64 Hw Hinv Hl.
+  pose proof (Hsim sub r S f rest B Hw Hinv) as H.
+  destruct (ri sub r (S, f :: rest)) as [| |ok v [S1 stk1]]; simpl; auto.
+  simpl in H. destruct H as [f1 [-> [Hinv1 [vs [Ss [Hrs Heq]]]]]]. rewrite Hrs. destruct ok.
+  - destruct (Heq eq_refl) as [-> ->]. unfold do_set. simpl. apply post_same.
+    apply frame_inv_set; try assumption.
+    intro HinB. apply lookup_none_notin in Hl. apply Hl. eapply frame_inv_base_keys; eassumption.
+  - apply post_done; [exact Hinv1|discriminate].
+Qed.
+
+Lemma sim_step : sim (mi_step cfg orc mapping arec ri) (ms_step cfg orc arec rs).
+Proof.
+  intros p r S f rest B Hwf Hinv. unfold mi_step, ms_step.
+  destruct (unwrap (cfg_unwrap_right cfg) r) as [| |r'].
+  2: exact I.
+  2: apply Hsim; assumption.
+  destruct p as [| | |s|t|name idx sub|hd tl|ps|q|ty fs|k arg].
+  - (* PNone *) destruct (is_vnil r); apply post_same; exact Hinv.
+  - (* PAny *) apply post_same; exact Hinv.
+  - (* PNil *) destruct (nil_match r); apply post_same; exact Hinv.
+  - (* PString *) destruct (string_match cfg s r) as [ok v]. apply post_same; exact Hinv.
+  - (* PToken *) destruct (token_match t r) as [ok v]. apply post_same; exact Hinv.
+  - (* PBinding *)
+    apply wf_binding in Hwf as [Hidx [H64 Hsub]].
+    unfold binding_match, s_binding. simpl fst.
+    destruct (is_nilpat sub).
+    + destruct (lookup name S) as [w|] eqn:El.
+      * destruct (arec w r); simpl; auto. apply post_same; exact Hinv.
+      * apply sim_store; auto.
+    + destruct (lookup name S) as [w|] eqn:El; [exact I|]. apply sim_store; auto.
+  - (* PList *)
+    simpl in Hwf. apply andb_true_iff in Hwf as [Hh Ht].
+    unfold list_match, s_list. destruct r; try (apply post_same; exact Hinv).
+    destruct (is_nilpat hd).
+    + destruct (Nat.eqb (List.length l) 0); apply post_same; exact Hinv.
+    + destruct l as [|x xs]; [apply post_same; exact Hinv|].
+      pose proof (Hsim hd x S f rest B Hh Hinv) as H.
+      destruct (ri hd x (S, f :: rest)) as [| |ok1 v1 [S1 stk1]]; simpl; auto.
+      simpl in H. destruct H as [f1 [-> [Hinv1 [vs [Ss [Hrs Heq]]]]]]. rewrite Hrs.
+      pose proof (Hsim tl (VList k false xs) S1 f1 rest B Ht Hinv1) as H2.
+      destruct (ri tl (VList k false xs) (S1, f1 :: rest)) as [| |ok2 v2 [S2 stk2]]; simpl; auto.
+      simpl in H2. destruct H2 as [f2 [-> [Hinv2 [vs2 [Ss2 [Hrs2 Heq2]]]]]].
+      destruct ok1; simpl.
+      * destruct (Heq eq_refl) as [_ ->]. rewrite Hrs2. destruct ok2.
+        -- destruct (Heq2 eq_refl) as [_ ->]. apply post_same; exact Hinv2.
+        -- apply post_done; [exact Hinv2|discriminate].
+      * apply post_done; [exact Hinv2|discriminate].
+  - (* POr *) apply sim_or; [apply wf_or; exact Hwf|exact Hinv].
+  - (* PNot *)
+    simpl in Hwf. unfold not_match, s_not. rewrite Hnpre, run_push.
+    pose proof (Hsim q r S 0%N (f :: rest) S Hwf (frame_inv_push mapping S (frame_inv_nodup mapping B S f Hinv))) as H.
+    destruct (ri q r (S, 0%N :: f :: rest)) as [| |ok v [S1 stk1]]; simpl; auto.
+    simpl in H. destruct H as [f1 [-> [Hinv1 [vs [Ss [Hrs Heq]]]]]]. rewrite Hrs.
+    rewrite Hnpost, run_pop, (frame_inv_pop mapping S S1 f1 Hinv1).
+    destruct ok; apply post_same; exact Hinv.
+  - (* PNode *)
+    unfold node_match, s_node.
+    destruct r; try exact I; try (apply post_same; exact Hinv).
+    + (* VList *)
+      destruct k; try exact I;
+        (destruct l as [|x [|y l']]; [apply post_same; exact Hinv | apply Hsim; assumption | apply post_same; exact Hinv]).
+    + (* VNode *)
+      destruct (String.eqb ty ty0); [|apply post_same; exact Hinv].
+      apply sim_fields; [apply wf_node in Hwf; exact Hwf|exact Hinv].
+  - (* PTypeAware *)
+    simpl in Hwf. unfold ta_match, s_ta.
+    assert (Hafter : forall rv S1 f1, frame_inv mapping B S1 f1 ->
+      post B rest
+        match o_ta orc k rv with
+        | None => RDone false VNil (S1, f1 :: rest)
+        | Some (resv, None) => RDone true resv (S1, f1 :: rest)
+        | Some (resv, Some sv) =>
+            match ri arg sv (S1, f1 :: rest) with
+            | RDone true _ m2 => RDone true resv m2
+            | RDone false _ m2 => RDone false VNil m2
+            | e => e end
+        end
+        match o_ta orc k rv with
+        | None => RDone false VNil S
+        | Some (resv, None) => RDone true resv S1
+        | Some (resv, Some sv) =>
+            match rs arg sv S1 with
+            | RDone true _ s2 => RDone true resv s2
+            | RDone false _ _ => RDone false VNil S
+            | e => e end
+        end).
+    { intros rv S1 f1 Hinv1. destruct (o_ta orc k rv) as [[resv [sv|]]|].
+      - pose proof (Hsim arg sv S1 f1 rest B Hwf Hinv1) as H.
+        destruct (ri arg sv (S1, f1 :: rest)) as [| |ok v [S2 stk2]]; simpl; auto.
+        simpl in H. destruct H as [f2 [-> [Hinv2 [vs [Ss [Hrs Heq]]]]]]. rewrite Hrs. destruct ok.
+        + destruct (Heq eq_refl) as [_ ->]. apply post_same; exact Hinv2.
+        + apply post_done; [exact Hinv2|discriminate].
+      - apply post_same; exact Hinv1.
+      - apply post_done; [exact Hinv1|discriminate]. }
+    destruct (ta_pre k arg) as [q|] eqn:Epre.
+    + pose proof (Hsim q r S f rest B (wf_ta_pre mapping k arg q Hwf Epre) Hinv) as H.
+      destruct (ri q r (S, f :: rest)) as [| |ok v [S1 stk1]]; simpl; auto.
+      simpl in H. destruct H as [f1 [-> [Hinv1 [vs [Ss [Hrs Heq]]]]]]. rewrite Hrs. destruct ok.
+      * destruct (Heq eq_refl) as [-> ->]. apply Hafter. exact Hinv1.
+      * apply post_done; [exact Hinv1|discriminate].
+    + apply Hafter. exact Hinv.
+Qed.
+End Sim.
+
+(* ---------------------------------------------------------------- the fuelled functions *)
+Lemma sim_fuel cfg orc mapping af :
+  cfg_ok cfg = true -> List.length mapping <= 64 ->
+  forall fuel, sim mapping (mi cfg orc mapping af fuel) (ms cfg orc af fuel).
+Proof.
+  intros Hcfg Hlen. induction fuel as [|fuel IH].
+  - intros p r S f rest B _ _. exact I.
+  - simpl mi. simpl ms. apply sim_step; assumption.
+Qed.
+
+(* Whatever Matcher.Match returns without panicking is what the reference semantics returns; on success
+   with the same value and the same State. *)
+Theorem impl_agrees_gen cfg orc mapping af fuel p t ok v sigma :
+  cfg_ok cfg = true -> List.length mapping <= 64 -> wf_pat_b mapping p = true ->
+  run_impl cfg orc mapping af fuel p t = RDone ok v sigma ->
+  exists vs ss, run_spec cfg orc af fuel p t = RDone ok vs ss /\ (ok = true -> vs = v /\ ss = sigma).
+Proof.
+  intros Hcfg Hlen Hwf. unfold run_impl, run_spec.
+  pose proof (sim_fuel cfg orc mapping af Hcfg Hlen fuel p t [] 0%N [] [] Hwf
+                (frame_inv_push mapping [] (NoDup_nil _))) as H.
+  destruct (mi cfg orc mapping af fuel p t ([], [0%N])) as [| |ok' v' [S' stk]] eqn:E0;
+    try (intro; discriminate).
+  unfold state in H, E0. rewrite E0 in H. simpl in H. destruct H as [f' [-> [_ [vs [Ss [Hrs Heq]]]]]]. intro E. inversion E; subst.
+  exists vs, Ss. split; assumption.
+Qed.
+
+Theorem impl_sound_gen cfg orc mapping af fuel p t v sigma :
+  cfg_ok cfg = true -> List.length mapping <= 64 -> wf_pat_b mapping p = true ->
+  run_impl cfg orc mapping af fuel p t = RDone true v sigma ->
+  run_spec cfg orc af fuel p t = RDone true v sigma.
+Proof.
+  intros Hcfg Hlen Hwf H.
+  destruct (impl_agrees_gen _ _ _ _ _ _ _ _ _ _ Hcfg Hlen Hwf H) as [vs [ss [Hs Heq]]].
+  destruct (Heq eq_refl) as [-> ->]. exact Hs.
+Qed.
+
+Lemma idx_inj_b_inv mapping p : idx_inj_b mapping p = true ->
+  List.length mapping <= 64 /\ wf_pat_b mapping p = true.
+Proof.
+  unfold idx_inj_b. intro H. apply andb_true_iff in H as [H H2]. apply andb_true_iff in H as [_ H1].
+  split; [apply Nat.leb_le; exact H1|exact H2].
+Qed.
+
+(* ---------------------------------------------------------------- or_atomic *)
+Lemma s_or_inv (rs : srecfn) ps r S v S' :
+  s_or rs ps r S = RDone true v S' ->
+  exists pre q post, ps = pre ++ q :: post /\
+    Forall (fun q' => exists v' s', rs q' r S = RDone false v' s') pre /\ rs q r S = RDone true v S'.
+Proof.
+  induction ps as [|p ps IH]; simpl; intro H; [discriminate|].
+  destruct (rs p r S) as [| |ok v0 s0] eqn:E; try discriminate. destruct ok.
+  - inversion H; subst. exists [], p, ps. repeat split; auto.
+  - destruct (IH H) as [pre [q [post [-> [Hpre Hq]]]]]. exists (p :: pre), q, post.
+    repeat split; auto. constructor; [exists v0, s0; exact E|exact Hpre].
+Qed.
+
+(* An Or that succeeds anywhere inside a match (any State, any frame stack that describes it) ends in
+   exactly the State its first matching alternative produces when run ALONE from the State before the
+   Or: nothing bound by the failed alternatives before it is visible. *)
+Theorem or_atomic_gen cfg orc mapping af fuel ps r st f rest B v st' stk :
+  cfg_ok cfg = true -> List.length mapping <= 64 -> wf_pat_b mapping (POr ps) = true ->
+  frame_inv mapping B st f -> unwrap (cfg_unwrap_right cfg) r = UNo ->
+  mi cfg orc mapping af (S fuel) (POr ps) r (st, f :: rest) = RDone true v (st', stk) ->
+  exists pre q post, ps = pre ++ q :: post /\
+    Forall (fun q' => exists v' s', ms cfg orc af fuel q' r st = RDone false v' s') pre /\
+    ms cfg orc af fuel q r st = RDone true v st'.
+Proof.
+  intros Hcfg Hlen Hwf Hinv Hu H.
+  pose proof (sim_fuel cfg orc mapping af Hcfg Hlen (S fuel) (POr ps) r st f rest B Hwf Hinv) as Hp.
+  rewrite H in Hp. simpl in Hp. destruct Hp as [f' [_ [_ [vs [Ss [Hrs Heq]]]]]].
+  destruct (Heq eq_refl) as [-> ->]. unfold ms_step in Hrs. rewrite Hu in Hrs.
+  apply s_or_inv. exact Hrs.
+Qed.
+
+(* ---------------------------------------------------------------- not_no_leak *)
+(* Whatever the operand of a Not did, after the Not neither the State nor the frame stack has changed. *)
+Theorem not_no_leak_gen cfg orc mapping af fuel q r st f rest B ok v m' :
+  cfg_ok cfg = true -> List.length mapping <= 64 -> wf_pat_b mapping (PNot q) = true ->
+  frame_inv mapping B st f -> unwrap (cfg_unwrap_right cfg) r = UNo ->
+  mi cfg orc mapping af (S fuel) (PNot q) r (st, f :: rest) = RDone ok v m' ->
+  m' = (st, f :: rest).
+Proof.
+  intros Hcfg Hlen Hwf Hinv Hu. simpl mi. unfold mi_step. rewrite Hu. unfold not_match.
+  destruct (cfg_ok_inv cfg Hcfg) as [_ [_ [_ [Hnpre [Hnpost _]]]]]. rewrite Hnpre. simpl run_ops.
+  simpl in Hwf.
+  pose proof (sim_fuel cfg orc mapping af Hcfg Hlen fuel q r st 0%N (f :: rest) st Hwf
+                (frame_inv_push mapping st (frame_inv_nodup mapping B st f Hinv))) as Hp.
+  unfold state in *.
+  destruct (mi cfg orc mapping af fuel q r (st, 0%N :: f :: rest)) as [| |ok' v' [st1 stk1]];
+    try (intro; discriminate).
+  simpl in Hp. destruct Hp as [f1 [-> [Hinv1 _]]]. rewrite Hnpost. simpl run_ops.
+  rewrite (frame_inv_pop mapping st st1 f1 Hinv1). destruct ok'; intro E; inversion E; reflexivity.
+Qed.
+
+(* ---------------------------------------------------------------- pop_only_own *)
+Lemma lookup_filter_keys (P : string -> bool) n (s : state) :
+  lookup n (filter (fun kv => negb (P (fst kv))) s) = if P n then None else lookup n s.
+Proof.
+  unfold lookup. induction s as [|[k w] s IH]; simpl.
+  - destruct (P n); reflexivity.
+  - destruct (P k) eqn:Ek; simpl.
+    + rewrite IH. destruct (String.eqb k n) eqn:E; [|reflexivity].
+      apply String.eqb_eq in E. subst. rewrite Ek. reflexivity.
+    + destruct (String.eqb k n) eqn:E; [|exact IH].
+      apply String.eqb_eq in E. subst. rewrite Ek. reflexivity.
+Qed.
+
+Lemma in_frame_bit mapping f i n :
+  NoDup mapping -> nth_error mapping i = Some n -> in_frame mapping f n = N.testbit f (N.of_nat i).
+Proof.
+  intros Hnd Hn. destruct (N.testbit f (N.of_nat i)) eqn:E.
+  - apply in_frame_true. exists i. auto.
+  - destruct (in_frame mapping f n) eqn:E2; [|reflexivity].
+    apply in_frame_true in E2 as [j [Hj Hnj]].
+    assert (j = i).
+    { apply (proj1 (NoDup_nth_error mapping) Hnd).
+      - apply nth_error_Some. rewrite Hnj. discriminate.
+      - rewrite Hnj, Hn. reflexivity. }
+    subst. rewrite Hj in E. discriminate.
+Qed.
+
+(* pop deletes exactly the names whose bit is set in the popped frame (this is where two names sharing
+   an index break the matcher) *)
+Theorem pop_only_own_gen mapping f st i n :
+  NoDup mapping -> nth_error mapping i = Some n ->
+  lookup n (pop_state mapping f st) = if N.testbit f (N.of_nat i) then None else lookup n st.
+Proof.
+  intros Hnd Hn. rewrite pop_state_filter, (lookup_filter_keys (in_frame mapping f)).
+  rewrite (in_frame_bit mapping f i n Hnd Hn). reflexivity.
+Qed.
+(* names outside Pattern.Bindings are never deleted *)
+Theorem pop_keeps_foreign mapping f st n :
+  ~ In n mapping -> lookup n (pop_state mapping f st) = lookup n st.
+Proof.
+  intro H. rewrite pop_state_filter, (lookup_filter_keys (in_frame mapping f)).
+  destruct (in_frame mapping f n) eqn:E; [|reflexivity].
+  apply in_frame_true in E as [i [_ Hi]]. exfalso. apply H. eapply nth_error_In. exact Hi.
+Qed.
+
+(* ---------------------------------------------------------------- rebind_equal *)
+(* A recall (bare name, already bound) succeeds only if the stored subtree matches the candidate under the
+   matcher's value-against-value comparison, and it changes nothing. *)
+Theorem rebind_equal_spec cfg orc af fuel n idx sub r st w v st' :
+  is_nilpat sub = true -> lookup n st = Some w -> unwrap (cfg_unwrap_right cfg) r = UNo ->
+  ms cfg orc af (S fuel) (PBinding n idx sub) r st = RDone true v st' ->
+  am cfg orc af w r = ADone true v /\ st' = st.
+Proof.
+  intros Hn Hl Hu. simpl ms. unfold ms_step. rewrite Hu. unfold s_binding. rewrite Hn, Hl.
+  destruct (am cfg orc af w r) as [| |ok v0]; simpl; try discriminate.
+  intro E. inversion E; subst. auto.
+Qed.
+Theorem rebind_equal_impl cfg orc mapping af fuel n idx sub r m w v m' :
+  is_nilpat sub = true -> lookup n (fst m) = Some w -> unwrap (cfg_unwrap_right cfg) r = UNo ->
+  mi cfg orc mapping af (S fuel) (PBinding n idx sub) r m = RDone true v m' ->
+  am cfg orc af w r = ADone true v /\ m' = m.
+Proof.
+  intros Hn Hl Hu. simpl mi. unfold mi_step. rewrite Hu. unfold binding_match. rewrite Hn, Hl.
+  destruct (am cfg orc af w r) as [| |ok v0]; simpl; try discriminate.
+  intro E. inversion E; subst. auto.
+Qed.
